@@ -31,6 +31,108 @@ Proof.
   nra.
 Qed.
 
+
+(* ---------------------------------------------------------------- composition of errors in modulus,
+   squared forms only (no square roots): vectors are pairs of reals *)
+Lemma sq_le_le x y : 0 <= y -> x * x <= y * y -> x <= y.
+Proof.
+  intros Hy H. destruct (Rle_lt_dec x y) as [L|L]; [exact L|]. exfalso.
+  assert (y * y < x * x) by (apply Rmult_le_0_lt_compat; lra). lra.
+Qed.
+
+Lemma vec_tri z1 z2 y1 y2 x1 x2 al be M :
+  0 <= al -> 0 <= be -> 0 <= M ->
+  (z1 - y1) * (z1 - y1) + (z2 - y2) * (z2 - y2) <= (al * al) * M ->
+  (y1 - x1) * (y1 - x1) + (y2 - x2) * (y2 - x2) <= (be * be) * M ->
+  (z1 - x1) * (z1 - x1) + (z2 - x2) * (z2 - x2) <= ((al + be) * (al + be)) * M.
+Proof.
+  intros Ha Hb HM H1 H2.
+  set (p1 := z1 - y1) in *. set (p2 := z2 - y2) in *. set (q1 := y1 - x1) in *. set (q2 := y2 - x2) in *.
+  replace (z1 - x1) with (p1 + q1) by (unfold p1, q1; ring).
+  replace (z2 - x2) with (p2 + q2) by (unfold p2, q2; ring).
+  set (P := p1 * p1 + p2 * p2) in *. set (Q := q1 * q1 + q2 * q2) in *.
+  assert (HP : 0 <= P) by (unfold P; pose proof (sq_nonneg p1); pose proof (sq_nonneg p2); lra).
+  assert (HQ : 0 <= Q) by (unfold Q; pose proof (sq_nonneg q1); pose proof (sq_nonneg q2); lra).
+  set (dt := p1 * q1 + p2 * q2).
+  assert (CS : dt * dt <= P * Q).
+  { pose proof (sq_nonneg (p1 * q2 - p2 * q1)). unfold dt, P, Q. nra. }
+  assert (B : P * Q <= (al * al * M) * (be * be * M)) by (apply Rmult_le_compat; assumption).
+  assert (D : dt <= al * be * M).
+  { apply sq_le_le.
+    - apply Rmult_le_pos; [apply Rmult_le_pos|]; assumption.
+    - replace (al * be * M * (al * be * M)) with ((al * al * M) * (be * be * M)) by ring. lra. }
+  replace ((p1 + q1) * (p1 + q1) + (p2 + q2) * (p2 + q2)) with (P + Q + 2 * dt) by (unfold P, Q, dt; ring).
+  replace ((al + be) * (al + be) * M) with (al * al * M + be * be * M + 2 * (al * be * M)) by ring.
+  lra.
+Qed.
+
+(* size of an approximation *)
+Lemma vec_norm_close x1 x2 a1 a2 k :
+  0 <= k ->
+  (x1 - a1) * (x1 - a1) + (x2 - a2) * (x2 - a2) <= (k * k) * (a1 * a1 + a2 * a2) ->
+  x1 * x1 + x2 * x2 <= ((k + 1) * (k + 1)) * (a1 * a1 + a2 * a2).
+Proof.
+  intros Hk H.
+  pose proof (vec_tri x1 x2 a1 a2 0 0 k 1 (a1 * a1 + a2 * a2) Hk ltac:(lra)
+                ltac:(pose proof (sq_nonneg a1); pose proof (sq_nonneg a2); lra) H) as T.
+  replace (x1 - 0) with x1 in T by ring. replace (x2 - 0) with x2 in T by ring.
+  apply T. replace (a1 - 0) with a1 by ring. replace (a2 - 0) with a2 by ring. lra.
+Qed.
+
+(* exact complex product of two approximations: (x1,x2) ~ (a1,a2) within k1, (y1,y2) ~ (b1,b2) within k2
+   (relative, in modulus) => product within k1*(1+k2) + k2 *)
+Lemma vec_mul_close x1 x2 a1 a2 y1 y2 b1 b2 k1 k2 :
+  0 <= k1 -> 0 <= k2 ->
+  (x1 - a1) * (x1 - a1) + (x2 - a2) * (x2 - a2) <= (k1 * k1) * (a1 * a1 + a2 * a2) ->
+  (y1 - b1) * (y1 - b1) + (y2 - b2) * (y2 - b2) <= (k2 * k2) * (b1 * b1 + b2 * b2) ->
+  let pr := x1 * y1 - x2 * y2 in let pi := x1 * y2 + x2 * y1 in
+  let er := a1 * b1 - a2 * b2 in let ei := a1 * b2 + a2 * b1 in
+  (pr - er) * (pr - er) + (pi - ei) * (pi - ei)
+    <= ((k1 * (k2 + 1) + k2) * (k1 * (k2 + 1) + k2)) * (er * er + ei * ei).
+Proof.
+  intros H1 H2 Hx Hy pr pi er ei.
+  set (A := a1 * a1 + a2 * a2) in *. set (B := b1 * b1 + b2 * b2) in *.
+  assert (HA : 0 <= A) by (unfold A; pose proof (sq_nonneg a1); pose proof (sq_nonneg a2); lra).
+  assert (HB : 0 <= B) by (unfold B; pose proof (sq_nonneg b1); pose proof (sq_nonneg b2); lra).
+  assert (EM : er * er + ei * ei = A * B) by (unfold er, ei, A, B; ring).
+  rewrite EM.
+  pose proof (vec_norm_close y1 y2 b1 b2 k2 H2 Hy) as Ny. fold B in Ny.
+  (* middle point: a * y *)
+  set (mr := a1 * y1 - a2 * y2). set (mi := a1 * y2 + a2 * y1).
+  apply (vec_tri pr pi mr mi er ei (k1 * (k2 + 1)) k2 (A * B)).
+  - apply Rmult_le_pos; lra.
+  - exact H2.
+  - apply Rmult_le_pos; assumption.
+  - replace ((pr - mr) * (pr - mr) + (pi - mi) * (pi - mi))
+      with (((x1 - a1) * (x1 - a1) + (x2 - a2) * (x2 - a2)) * (y1 * y1 + y2 * y2)) by (unfold pr, pi, mr, mi; ring).
+    replace (k1 * (k2 + 1) * (k1 * (k2 + 1)) * (A * B)) with ((k1 * k1 * A) * ((k2 + 1) * (k2 + 1) * B)) by ring.
+    apply Rmult_le_compat; try assumption.
+    + pose proof (sq_nonneg (x1 - a1)); pose proof (sq_nonneg (x2 - a2)); lra.
+    + pose proof (sq_nonneg y1); pose proof (sq_nonneg y2); lra.
+  - replace ((mr - er) * (mr - er) + (mi - ei) * (mi - ei))
+      with (A * ((y1 - b1) * (y1 - b1) + (y2 - b2) * (y2 - b2))) by (unfold mr, mi, er, ei, A; ring).
+    replace (k2 * k2 * (A * B)) with (A * (k2 * k2 * B)) by ring.
+    apply Rmult_le_compat_l; assumption.
+Qed.
+
+(* a rounded operation with relative error d (in modulus) applied to an approximation within k *)
+Lemma vec_round_close r1 r2 p1 p2 e1 e2 d k :
+  0 <= d -> 0 <= k ->
+  (r1 - p1) * (r1 - p1) + (r2 - p2) * (r2 - p2) <= (d * d) * (p1 * p1 + p2 * p2) ->
+  (p1 - e1) * (p1 - e1) + (p2 - e2) * (p2 - e2) <= (k * k) * (e1 * e1 + e2 * e2) ->
+  (r1 - e1) * (r1 - e1) + (r2 - e2) * (r2 - e2) <= ((d * (k + 1) + k) * (d * (k + 1) + k)) * (e1 * e1 + e2 * e2).
+Proof.
+  intros Hd Hk H1 H2.
+  pose proof (vec_norm_close p1 p2 e1 e2 k Hk H2) as N.
+  set (E := e1 * e1 + e2 * e2) in *.
+  assert (HE : 0 <= E) by (unfold E; pose proof (sq_nonneg e1); pose proof (sq_nonneg e2); lra).
+  apply (vec_tri r1 r2 p1 p2 e1 e2 (d * (k + 1)) k E); try assumption.
+  - apply Rmult_le_pos; lra.
+  - eapply Rle_trans; [exact H1|].
+    replace (d * (k + 1) * (d * (k + 1)) * E) with ((d * d) * ((k + 1) * (k + 1) * E)) by ring.
+    apply Rmult_le_compat_l; [pose proof (sq_nonneg d); lra | exact N].
+Qed.
+
 Section Std.
   Variable rnd : reg -> R -> R.
   Variable u : R.
@@ -235,5 +337,236 @@ Section Std.
       pose proof (Rabs_pos (a * b)). nra. }
     pose proof (sq_abs_le _ _ Hre). pose proof (sq_abs_le _ _ Him).
     pose proof (sq_nonneg u). pose proof (sq_nonneg (a * a + b * b)). nra.
+  Qed.
+
+  (* ---- conjugate / negation after a copy: two roundings on the imaginary part *)
+  Lemma neg_rnd_err r2 r3 b :
+    Rabs (rnd r3 (- rnd r2 b) - (- b)) <= 2 * u * Rabs (- b) /\ Rabs (rnd r3 (- rnd r2 b)) <= Rabs (- b).
+  Proof.
+    pose proof u_nonneg as Hu. rewrite (Rabs_Ropp b).
+    assert (E : Rabs (- rnd r2 b - (- b)) <= u * Rabs b).
+    { replace (- rnd r2 b - - b) with (- (rnd r2 b - b)) by ring. rewrite Rabs_Ropp. apply rnd_err. }
+    assert (B : Rabs (- rnd r2 b) <= Rabs b) by (rewrite Rabs_Ropp; apply rnd_le).
+    split.
+    - pose proof (rnd_step r3 _ _ _ E). pose proof (Rabs_pos b). nra.
+    - pose proof (rnd_le r3 (- rnd r2 b)). lra.
+  Qed.
+
+  Theorem con_err (r1 r2 r3 : reg) a b :
+    let re := rnd r1 a in let im := rnd r3 (- rnd r2 b) in
+    (re - a) * (re - a) + (im - - b) * (im - - b) <= (2 * u) * (2 * u) * (a * a + - b * - b).
+  Proof.
+    intros re im. pose proof u_nonneg as Hu.
+    apply cmod_from_components; [lra | | apply neg_rnd_err].
+    pose proof (rnd_err r1 a). fold re in H. pose proof (Rabs_pos a). nra.
+  Qed.
+
+  (* ---- squared modulus as in mpc_smod: nh = rnd (rnd (a*a) + rnd (b*b)) *)
+  Lemma smod_bounds (q1 q2 q3 : reg) a b :
+    u <= 1 ->
+    let n := a * a + b * b in
+    let nh := rnd q3 (rnd q1 (a * a) + rnd q2 (b * b)) in
+    nh <= n /\ n * ((1 - u) * (1 - u)) <= nh.
+  Proof.
+    intros Hu1 n nh. pose proof u_nonneg as Hu.
+    pose proof (sq_nonneg a) as Ha. pose proof (sq_nonneg b) as Hb.
+    assert (T : forall r x, 0 <= x -> x * (1 - u) <= rnd r x <= x).
+    { intros r x Hx. pose proof (rnd_err r x) as E. pose proof (rnd_le r x) as L.
+      rewrite (Rabs_right x) in E, L by lra.
+      split.
+      - pose proof (Rle_abs (- (rnd r x - x))). rewrite Rabs_Ropp in H. lra.
+      - pose proof (Rle_abs (rnd r x)). lra. }
+    destruct (T q1 (a * a) Ha) as [P1 P2]. destruct (T q2 (b * b) Hb) as [Q1 Q2].
+    set (p := rnd q1 (a * a)) in *. set (q := rnd q2 (b * b)) in *.
+    assert (Hs : 0 <= p + q) by nra.
+    destruct (T q3 (p + q) Hs) as [S1 S2]. fold nh in S1, S2.
+    split; [unfold n; lra|].
+    assert (n * (1 - u) <= p + q) by (unfold n; lra).
+    assert (n * (1 - u) * (1 - u) <= (p + q) * (1 - u)) by (apply Rmult_le_compat_r; lra).
+    lra.
+  Qed.
+
+  Theorem smod_err (q1 q2 q3 : reg) a b :
+    u <= 1 ->
+    let n := a * a + b * b in
+    Rabs (rnd q3 (rnd q1 (a * a) + rnd q2 (b * b)) - n) <= 2 * u * n.
+  Proof.
+    intros Hu1 n. destruct (smod_bounds q1 q2 q3 a b Hu1) as [B1 B2]. fold n in B1, B2.
+    pose proof u_nonneg as Hu. pose proof (sq_nonneg u).
+    assert (0 <= n) by (unfold n; pose proof (sq_nonneg a); pose proof (sq_nonneg b); lra).
+    assert (0 <= u * n) by (apply Rmult_le_pos; lra).
+    assert (0 <= n * (u * u)) by (apply Rmult_le_pos; lra).
+    assert (n * ((1 - u) * (1 - u)) = n - 2 * (u * n) + n * (u * u)) by ring.
+    apply Rabs_le. split; lra.
+  Qed.
+
+  (* modulus as in mpc_mod; the standard model is assumed for mpf_sqrt as for the other primitives *)
+  Theorem mod_err (q1 q2 q3 q4 : reg) a b :
+    u <= 1 ->
+    let n := a * a + b * b in
+    Rabs (rnd q4 (sqrt (rnd q3 (rnd q1 (a * a) + rnd q2 (b * b)))) - sqrt n) <= 2 * u * sqrt n.
+  Proof.
+    intros Hu1 n. destruct (smod_bounds q1 q2 q3 a b Hu1) as [B1 B2]. fold n in B1, B2.
+    set (nh := rnd q3 (rnd q1 (a * a) + rnd q2 (b * b))) in *.
+    pose proof u_nonneg as Hu.
+    assert (Hn : 0 <= n) by (unfold n; pose proof (sq_nonneg a); pose proof (sq_nonneg b); lra).
+    assert (U : sqrt nh <= sqrt n) by (apply sqrt_le_1_alt; exact B1).
+    assert (L : sqrt n * (1 - u) <= sqrt nh).
+    { rewrite <- (sqrt_square (1 - u)) at 1 by lra. rewrite <- sqrt_mult_alt by exact Hn.
+      apply sqrt_le_1_alt. exact B2. }
+    pose proof (sqrt_pos n). pose proof (sqrt_pos nh).
+    assert (E : Rabs (sqrt nh - sqrt n) <= u * sqrt n) by (apply Rabs_le; split; nra).
+    pose proof (rnd_step q4 _ _ _ E) as G. rewrite (Rabs_right (sqrt nh)) in G by lra. nra.
+  Qed.
+
+  (* ---- one rounded quotient by the rounded squared modulus *)
+  Lemma quot_err r x a nh n k :
+    0 < n -> 0 < nh -> nh <= n -> n * ((1 - u) * (1 - u)) <= nh -> u <= / 16 -> 0 <= k <= 2 ->
+    Rabs (x - a) <= k * u * Rabs a -> Rabs x <= Rabs a ->
+    Rabs (rnd r (x / nh) - a / n) <= (k + 4) * u * Rabs (a / n).
+  Proof.
+    intros Hn Hnh B1 B2 Hu16 Hk Hx Bx. pose proof u_nonneg as Hu.
+    set (w := / nh). set (v := / n). set (d := (1 - u) * (1 - u)) in *.
+    assert (Hw : 0 < w) by (apply Rinv_0_lt_compat; exact Hnh).
+    assert (Hv : 0 < v) by (apply Rinv_0_lt_compat; exact Hn).
+    assert (Ew : nh * w = 1) by (unfold w; field; lra).
+    assert (Ev : n * v = 1) by (unfold v; field; lra).
+    assert (Vw : v <= w) by (apply Rinv_le_contravar; assumption).
+    assert (Dw : d * w <= v).
+    { assert (G : n * d * (w * v) <= nh * (w * v)) by (apply Rmult_le_compat_r; [apply Rmult_le_pos; lra | exact B2]).
+      replace (n * d * (w * v)) with (d * w * (n * v)) in G by ring.
+      replace (nh * (w * v)) with (v * (nh * w)) in G by ring. rewrite Ev, Ew in G. lra. }
+    assert (Hd : 225 / 256 <= d).
+    { unfold d. assert (15 / 16 <= 1 - u) by lra.
+      replace (225 / 256) with ((15 / 16) * (15 / 16)) by field. apply Rmult_le_compat; lra. }
+    assert (Wv : w - v <= 2 * u * w).
+    { assert (w - v <= w - d * w) by lra. assert (w - d * w = (2 * u - u * u) * w) by (unfold d; ring).
+      pose proof (sq_nonneg u). assert (0 <= u * u * w) by (apply Rmult_le_pos; lra). lra. }
+    unfold Rdiv. fold w v. pose proof (Rabs_pos a) as Pa.
+    assert (E : Rabs (x * w - a * v) <= (k + 2) * u * (Rabs a * w)).
+    { replace (x * w - a * v) with ((x - a) * w + a * (w - v)) by ring.
+      eapply Rle_trans; [apply Rabs_triang|]. rewrite !Rabs_mult.
+      rewrite (Rabs_right w) by lra. rewrite (Rabs_right (w - v)) by lra.
+      assert (Rabs (x - a) * w <= k * u * Rabs a * w) by (apply Rmult_le_compat_r; lra).
+      assert (Rabs a * (w - v) <= Rabs a * (2 * u * w)) by (apply Rmult_le_compat_l; lra).
+      lra. }
+    pose proof (rnd_step r _ _ _ E) as G.
+    assert (Bxw : Rabs (x * w) <= Rabs a * w).
+    { rewrite Rabs_mult, (Rabs_right w) by lra. apply Rmult_le_compat_r; lra. }
+    rewrite Rabs_mult, (Rabs_right v) by lra.
+    assert (Paw : 0 <= Rabs a * w) by (apply Rmult_le_pos; lra).
+    assert (S1 : Rabs (rnd r (x * w) - a * v) <= (k + 3) * u * (Rabs a * w)).
+    { assert (u * Rabs (x * w) <= u * (Rabs a * w)) by (apply Rmult_le_compat_l; lra). lra. }
+    assert (S2 : (k + 3) * w <= (k + 4) * v).
+    { assert ((k + 4) * (d * w) <= (k + 4) * v) by (apply Rmult_le_compat_l; lra).
+      assert (0 <= ((k + 4) * d - (k + 3)) * w).
+      { apply Rmult_le_pos; [|lra]. assert ((k + 4) * (225 / 256) <= (k + 4) * d) by (apply Rmult_le_compat_l; lra). lra. }
+      lra. }
+    assert (S3 : u * Rabs a * ((k + 3) * w) <= u * Rabs a * ((k + 4) * v)).
+    { apply Rmult_le_compat_l; [apply Rmult_le_pos; lra | exact S2]. }
+    lra.
+  Qed.
+
+  (* ---- reciprocal as in mpc_inv: smod, copy (rounded), negate, two divisions *)
+  Theorem inv_err (q1 q2 q3 q4 q5 q6 q7 q8 : reg) a b :
+    0 < a * a + b * b -> u <= / 16 ->
+    let n := a * a + b * b in
+    let nh := rnd q3 (rnd q1 (a * a) + rnd q2 (b * b)) in
+    let re := rnd q7 (rnd q4 a / nh) in let im := rnd q8 (rnd q6 (- rnd q5 b) / nh) in
+    (re - a / n) * (re - a / n) + (im - - b / n) * (im - - b / n)
+      <= (6 * u) * (6 * u) * (a / n * (a / n) + - b / n * (- b / n)).
+  Proof.
+    intros Hn Hu16 n nh re im. pose proof u_nonneg as Hu.
+    destruct (smod_bounds q1 q2 q3 a b ltac:(lra)) as [B1 B2]. fold n nh in B1, B2.
+    assert (Hd : 0 < (1 - u) * (1 - u)) by (apply Rmult_lt_0_compat; lra).
+    assert (Hnh : 0 < nh).
+    { assert (0 < n * ((1 - u) * (1 - u))) by (apply Rmult_lt_0_compat; assumption). lra. }
+    apply cmod_from_components; [lra | |].
+    - assert (X : Rabs (rnd q4 a - a) <= 1 * u * Rabs a) by (pose proof (rnd_err q4 a); lra).
+      pose proof (quot_err q7 (rnd q4 a) a nh n 1 Hn Hnh B1 B2 Hu16 ltac:(lra) X (rnd_le q4 a)) as G.
+      fold re in G. pose proof (Rabs_pos (a / n)). nra.
+    - destruct (neg_rnd_err q5 q6 b) as [Y1 Y2].
+      pose proof (quot_err q8 (rnd q6 (- rnd q5 b)) (- b) nh n 2 Hn Hnh B1 B2 Hu16 ltac:(lra) Y1 Y2) as G.
+      fold im in G. lra.
+  Qed.
+
+  (* ---- quotient as in mpc_div: t = inv (c2); rc = mul (c1, t) (3-multiplication product) *)
+  Theorem div_err (q1 q2 q3 q4 q5 q6 q7 q8 r1 r2 r3 r4 r5 r6 r7 r8 : reg) a b c d :
+    0 < c * c + d * d -> u <= / 128 ->
+    let n := c * c + d * d in
+    let nh := rnd q3 (rnd q1 (c * c) + rnd q2 (d * d)) in
+    let tr := rnd q7 (rnd q4 c / nh) in let ti := rnd q8 (rnd q6 (- rnd q5 d) / nh) in
+    let s1 := rnd r1 (a - b) in let s2 := rnd r2 (tr + ti) in
+    let p1 := rnd r3 (s1 * s2) in let p2 := rnd r4 (a * ti) in let p3 := rnd r5 (b * tr) in
+    let re := rnd r7 (rnd r6 (p1 - p2) + p3) in
+    let im := rnd r8 (p2 + p3) in
+    let er := (a * c + b * d) / n in let ei := (b * c - a * d) / n in
+    (re - er) * (re - er) + (im - ei) * (im - ei) <= (24 * u) * (24 * u) * (er * er + ei * ei).
+  Proof.
+    intros Hn Hu n nh tr ti s1 s2 p1 p2 p3 re im er ei. pose proof u_nonneg as Hu0.
+    pose proof (inv_err q1 q2 q3 q4 q5 q6 q7 q8 c d Hn ltac:(lra)) as HI. cbv zeta in HI. fold n nh tr ti in HI.
+    pose proof (mul3_err a b tr ti r1 r2 r3 r4 r5 r6 r7 r8) as HM. cbv zeta in HM.
+    fold s1 s2 p1 p2 p3 re im in HM.
+    (* exact product of (a,b) with the computed reciprocal is within 6u of the quotient *)
+    assert (HA : (a - a) * (a - a) + (b - b) * (b - b) <= 0 * 0 * (a * a + b * b)) by (right; ring).
+    pose proof (vec_mul_close a b a b tr ti (c / n) (- d / n) 0 (6 * u) ltac:(lra) ltac:(lra) HA HI) as HP.
+    cbv zeta in HP.
+    assert (Er : a * (c / n) - b * (- d / n) = er) by (unfold er, n; field; lra).
+    assert (Ei : a * (- d / n) + b * (c / n) = ei) by (unfold ei, n; field; lra).
+    rewrite Er, Ei in HP.
+    replace (0 * (6 * u + 1) + 6 * u) with (6 * u) in HP by ring.
+    assert (HM' : (re - (a * tr - b * ti)) * (re - (a * tr - b * ti)) + (im - (a * ti + b * tr)) * (im - (a * ti + b * tr))
+                  <= (17 * u) * (17 * u) * ((a * tr - b * ti) * (a * tr - b * ti) + (a * ti + b * tr) * (a * ti + b * tr))).
+    { eapply Rle_trans; [exact HM|]. right. ring. }
+    pose proof (vec_round_close re im _ _ er ei (17 * u) (6 * u) ltac:(lra) ltac:(lra) HM' HP) as HR.
+    eapply Rle_trans; [exact HR|].
+    assert (HE : 0 <= er * er + ei * ei) by (pose proof (sq_nonneg er); pose proof (sq_nonneg ei); lra).
+    apply Rmult_le_compat_r; [exact HE|].
+    assert (K : 17 * u * (6 * u + 1) + 6 * u <= 24 * u).
+    { assert (u * u <= u * / 128) by (apply Rmult_le_compat_l; lra). lra. }
+    assert (0 <= 17 * u * (6 * u + 1) + 6 * u) by (pose proof (sq_nonneg u); lra).
+    apply Rmult_le_compat; lra.
+  Qed.
+
+  (* ---- steps of mpc_pow_si on approximate operands (relative errors k, k1, k2 in modulus, not in units of u) *)
+  Theorem pow_sqr_step (r1 r2 r3 r4 r5 : reg) x1 x2 a1 a2 k :
+    0 <= k ->
+    (x1 - a1) * (x1 - a1) + (x2 - a2) * (x2 - a2) <= (k * k) * (a1 * a1 + a2 * a2) ->
+    let re := rnd r4 (rnd r2 (x1 * x1) - rnd r3 (x2 * x2)) in
+    let im := rnd r5 (rnd r1 (x1 * x2) * 2) in
+    let er := a1 * a1 - a2 * a2 in let ei := a1 * a2 + a2 * a1 in
+    let k' := 3 * u * (k * (k + 1) + k + 1) + (k * (k + 1) + k) in
+    (re - er) * (re - er) + (im - ei) * (im - ei) <= (k' * k') * (er * er + ei * ei).
+  Proof.
+    intros Hk Hx re im er ei k'. pose proof u_nonneg as Hu.
+    pose proof (vec_mul_close x1 x2 a1 a2 x1 x2 a1 a2 k k Hk Hk Hx Hx) as HP. cbv zeta in HP. fold er ei in HP.
+    pose proof (sqr_err r1 r2 r3 r4 r5 x1 x2) as HS. cbv zeta in HS. fold re im in HS.
+    assert (HS' : (re - (x1 * x1 - x2 * x2)) * (re - (x1 * x1 - x2 * x2)) + (im - (x1 * x2 + x2 * x1)) * (im - (x1 * x2 + x2 * x1))
+                  <= (3 * u) * (3 * u) * ((x1 * x1 - x2 * x2) * (x1 * x1 - x2 * x2) + (x1 * x2 + x2 * x1) * (x1 * x2 + x2 * x1))).
+    { eapply Rle_trans; [|eapply Rle_trans; [exact HS|]]; right; ring. }
+    assert (0 <= k * (k + 1) + k) by (pose proof (sq_nonneg k); nra).
+    exact (vec_round_close re im _ _ er ei (3 * u) (k * (k + 1) + k) ltac:(lra) H HS' HP).
+  Qed.
+
+  Theorem pow_mul_step (r1 r2 r3 r4 r5 r6 r7 r8 : reg) x1 x2 a1 a2 y1 y2 b1 b2 k1 k2 :
+    0 <= k1 -> 0 <= k2 ->
+    (x1 - a1) * (x1 - a1) + (x2 - a2) * (x2 - a2) <= (k1 * k1) * (a1 * a1 + a2 * a2) ->
+    (y1 - b1) * (y1 - b1) + (y2 - b2) * (y2 - b2) <= (k2 * k2) * (b1 * b1 + b2 * b2) ->
+    let s1 := rnd r1 (x1 - x2) in let s2 := rnd r2 (y1 + y2) in
+    let p1 := rnd r3 (s1 * s2) in let p2 := rnd r4 (x1 * y2) in let p3 := rnd r5 (x2 * y1) in
+    let re := rnd r7 (rnd r6 (p1 - p2) + p3) in
+    let im := rnd r8 (p2 + p3) in
+    let er := a1 * b1 - a2 * b2 in let ei := a1 * b2 + a2 * b1 in
+    let k' := 17 * u * (k1 * (k2 + 1) + k2 + 1) + (k1 * (k2 + 1) + k2) in
+    (re - er) * (re - er) + (im - ei) * (im - ei) <= (k' * k') * (er * er + ei * ei).
+  Proof.
+    intros H1 H2 Hx Hy s1 s2 p1 p2 p3 re im er ei k'. pose proof u_nonneg as Hu.
+    pose proof (vec_mul_close x1 x2 a1 a2 y1 y2 b1 b2 k1 k2 H1 H2 Hx Hy) as HP. cbv zeta in HP. fold er ei in HP.
+    pose proof (mul3_err x1 x2 y1 y2 r1 r2 r3 r4 r5 r6 r7 r8) as HM. cbv zeta in HM. fold s1 s2 p1 p2 p3 re im in HM.
+    assert (HM' : (re - (x1 * y1 - x2 * y2)) * (re - (x1 * y1 - x2 * y2)) + (im - (x1 * y2 + x2 * y1)) * (im - (x1 * y2 + x2 * y1))
+                  <= (17 * u) * (17 * u) * ((x1 * y1 - x2 * y2) * (x1 * y1 - x2 * y2) + (x1 * y2 + x2 * y1) * (x1 * y2 + x2 * y1))).
+    { eapply Rle_trans; [exact HM|]. right. ring. }
+    assert (0 <= k1 * (k2 + 1) + k2) by (assert (0 <= k1 * (k2 + 1)) by (apply Rmult_le_pos; lra); lra).
+    exact (vec_round_close re im _ _ er ei (17 * u) (k1 * (k2 + 1) + k2) ltac:(lra) H HM' HP).
   Qed.
 End Std.
